@@ -55,6 +55,10 @@ def dom14_case(rng, mode, repeats):
                 continue
             if rng.random() < max(dens, 0.4):
                 items.append("(= (%s) %s)" % (" ".join([f] + list(combo)), repr(rng.choice(VALUE_POOL[:16]))))
+    if repeats:
+        o = rng.choice(names_a)     # the diagonal entry is always there
+        if not any(i.startswith("(= (g %s %s)" % (o, o)) for i in items):
+            items.append("(= (g %s %s) %s)" % (o, o, repr(rng.choice(VALUE_POOL[:12]))))
     rng.shuffle(items)
     ptxt = "(define (problem prob) (:domain dom14) (:objects %s) (:init %s) (:goal (and)))" % (
         " ".join("%s - %s" % (n, t) for n, t in objs), " ".join(items))
@@ -131,6 +135,13 @@ def build_inputs(rng, tier):
     for _ in range(max(4, n // 10)):
         inputs.append(dom14_case(rng, rng.choice(["single", "joint"]), repeats=True))
     inputs += exhaustive_inputs(tier)
+    # process-level sequences: an unrelated round trip with repeated-argument fluents (or none, for contrast) happens in
+    # the same process BEFORE an ordinary trajectory is built, exported and parsed back
+    for k in range(max(6, n // 8)):
+        main = rng.choice([lambda: world_case(rng, "single"), lambda: world_case(rng, "joint"),
+                           lambda: dom14_case(rng, rng.choice(["single", "joint"]), repeats=False)])()
+        noise = [dom14_case(rng, rng.choice(["single", "joint"]), repeats=(k % 5 != 4)) for _ in range(rng.randint(1, 2))]
+        inputs.append(dict(main, kind="after-noise:" + main["kind"], noise=noise, main=main))
     # the empty plan
     e = dom14_case(rng, "single", repeats=False)
     e.update(kind="empty-plan", plan=[])
@@ -141,6 +152,8 @@ def build_inputs(rng, tier):
 
 
 def job_of(inp):
+    if "noise" in inp:
+        return {"op": "c10.after_noise", "noise": [job_of(n) for n in inp["noise"]], "main": job_of(inp["main"])}
     if inp["kind"] == "shipped":
         s = inp["shipped"]
         agents = s["agents"]
@@ -309,7 +322,21 @@ def run(args):
     else:
         inputs = build_inputs(rng, args.tier)
     hashseed = args.seed % 5
-    results = run_impl([job_of(i) for i in inputs], hashseed=hashseed)
+    # Order inside a worker process is part of the input (process-level state of the library), so it is controlled:
+    # inputs with repeated-argument fluents (the D07 area) never share a process with ordinary inputs, and every
+    # after-noise sequence is one job in a process of its own; a replay in a fresh process is the same experiment.
+    from ..common import NCPU
+    seq = [i for i, x in enumerate(inputs) if "noise" in x]
+    apart = [i for i, x in enumerate(inputs) if "noise" not in x and (x["kind"].endswith("-repeats") or x["kind"].startswith("witness"))]
+    plain = [i for i in range(len(inputs)) if i not in seq and i not in apart]
+    results = [None] * len(inputs)
+    for idxs in (plain, apart):
+        for i, r in zip(idxs, run_impl([job_of(inputs[i]) for i in idxs], hashseed=hashseed)):
+            results[i] = r
+    for a in range(0, len(seq), NCPU):
+        batch = seq[a:a + NCPU]
+        for i, r in zip(batch, run_impl([job_of(inputs[i]) for i in batch], hashseed=hashseed, nproc=len(batch))):
+            results[i] = r
     # float facts
     vals, toks = set(), set()
     for r in results:
